@@ -339,7 +339,7 @@ UNIT = {
         'notifications and the TextDocumentSync* capability types transcribed as data; the METHOD strings and `type Params` are read from the vendored '
         'crate at load time (Undecided when they differ from the transcription)',
         'macro expansion: unit c24_dispatch\'s rule c24-macro-expand (mrules.py) implements macro_rules transcription for the single-rule, one-level-repetition '
-        'shape of dispatch_notification!; it is not rustc\'s expander. Cross-check: replay/c27/replay.py observes the same behaviour on the compiled server',
+        'shape of dispatch_notification!; it is not rustc\'s expander. Cross-check: replay/c27 (cargo crate, the real server over stdio) observes the same behaviour on the compiled server',
         'opaque shims without contract and WITHOUT the ghost state: WorkspaceManager::{sync_open_file, close_open_file, extend_reindex_delay}, '
         'FileDiagnostic::{add_diagnostic_task, clear_push_file_diagnostics}, LspFeatures::supports_pull_diagnostic (arbitrary bool), get_emmyrc (arbitrary '
         'configuration), ServerContextSnapshot accessors, the six other notification handlers, handle_cancel, on_request_handler, on_response_handler, '
@@ -367,25 +367,21 @@ UNIT = {
         'on_did_change_text_document(ctx, {uri, content_changes}) : |content_changes| > 0 and processed -> applied\' == applied ++ [(uri, Some(content_changes[0].text))]; |content_changes| == 0 -> st\' == st, returns None',
         'on_did_close_document(ctx, {uri}) : (path(uri) = Some(p) and p not on disk) or (uri known and no ModuleInfo) -> applied\' == applied ++ [(uri, None)], known\' == known - {uri}; otherwise st\' == st',
         'on_notification_handler(n): Ok; method == "textDocument/didOpen" | "textDocument/didChange" | "textDocument/didClose" with deserializable params -> inline_post(st, st\', note_of(n)) '
-        '[FAILS on the unrepaired tree for didOpen and didClose: both sit in the `async:` group, their update lands in `deferred`]',
+        '[FAILED before /repo d31e85b for didOpen and didClose: both sat in the `async:` group, their update landed in `deferred`]',
         'handle_message(Notification(n)): step(st, st\', note_of(n)) — the notification has been handled to the end when handle_message returns',
         'lemma_last_notification_wins(states, notes, u, j): chain && notes[j] is the last note about u && it is a processed didOpen / didChange with text t ==> last_for(final.applied, u) == Some(Some(t))',
         'lemma_open_then_change: didOpen(u, t1) processed at turn i, didChange(u, t2) at turn j > i the last note about u, no didClose(u) between ==> last_for(final.applied, u) == Some(Some(t2))',
         'register_capabilities: text_document_sync == Some(Options { change: Some(FULL), open_close: Some(true), .. })',
     ],
     'findings': [
-        'C27.dispatch.text-sync-notifications-are-not-spawned.didOpen / .didClose FAIL on the unrepaired tree: DidOpenTextDocument and DidCloseTextDocument are in the '
-        '`async:` group of dispatch_notification! (handlers/notification_handler.rs), DidChangeTextDocument in the `sync:` group. Message sequence: '
-        'didOpen(u, t1); didChange(u, t2) back to back — the didOpen task is spawned, the didChange is handled inline and applies t2, then the didOpen task '
-        'applies t1: the analysis stays on t1 while the client\'s document is t2. Observed on the compiled server (replay/c27/replay.py): 5 of 6, 8 of 10, 3 of 4 rounds. '
-        'Repair: proposed_fix_text_sync_inline.diff (move both entries to `sync:`); with it the unit verifies (exit 0)',
+        'FIXED by /repo commit d31e85b (= proposed_fix_text_sync_inline.diff). Before it C27.dispatch.text-sync-notifications-are-not-spawned.didOpen / .didClose FAILED: '
+        'DidOpenTextDocument and DidCloseTextDocument were in the `async:` group of dispatch_notification! (handlers/notification_handler.rs), DidChangeTextDocument in '
+        'the `sync:` group. Message sequence: didOpen(u, t1); didChange(u, t2) back to back — the didOpen task is spawned, the didChange is handled inline and applies t2, '
+        'then the didOpen task applies t1: the analysis stays on t1 while the client\'s document is t2. Replay: replay/c27 (`replay open-change`), FOUND on the tree with '
+        'the fix reverted, 0 of 12 on the repaired tree',
     ],
     'mutants': [
-        # on the unrepaired tree .didOpen and .didClose fail without any edit; the mutant adds .didChange
-        {'name': 'didChange-moved-to-the-async-group', 'item': 'on_notification_handler',
-         'pattern': r'(sync: \{[^}]*?)DidChangeTextDocument => on_did_change_text_document,([^}]*\}\s*async: \{)',
-         'repl': r'\1\2 DidChangeTextDocument => on_did_change_text_document,',
-         'expect': r'C27\.dispatch\.text-sync-notifications-are-not-spawned\.didChange'},
+        # (`<method>-moved-to-the-async-group`, one per text-sync entry that sits in the sync group of the current tree, are appended below)
         {'name': 'change-update-inside-a-spawned-task', 'item': 'on_did_change_text_document',
          'pattern': r'let file_id = analysis\.update_file_by_uri\(&uri, Some\(text\)\);',
          'repl': 'let file_id: Option<FileId> = None; { let context = context.clone(); let uri = uri.clone(); '
@@ -416,4 +412,13 @@ UNIT = {
          'expect': r'C27\.capabilities\.full-sync-advertised'},
     ],
 }
+# the seeded / historical defect reduced to its core: a text-sync entry of the `sync:` group is moved to the `async:` group. On the tree before
+# commit d31e85b DidOpenTextDocument and DidCloseTextDocument sat there without any edit (the .didOpen / .didClose clauses failed on the unchanged tree).
+for _t, _short in (('DidOpenTextDocument', 'didOpen'), ('DidChangeTextDocument', 'didChange'), ('DidCloseTextDocument', 'didClose')):
+    if _t in {t for t, _ in _c24.NSYNC}:
+        _entry = r'%s => %s,' % (_t, TEXT_SYNC[_t][0])
+        UNIT['mutants'].insert(0, {
+            'name': '%s-moved-to-the-async-group' % _short, 'item': 'on_notification_handler',
+            'pattern': r'(sync: \{[^}]*?)' + _entry + r'([^}]*\}\s*async: \{)', 'repl': r'\1\2 ' + _entry,
+            'expect': r'C27\.dispatch\.text-sync-notifications-are-not-spawned\.%s' % _short})
 UNIT['template_text'] = _template()
